@@ -5,7 +5,7 @@ rm -rf /tmp/evidence_saved && cp -r evidence /tmp/evidence_saved
 git -C /repo apply "$(realpath "$patch")" || exit 2
 for pid in "$@"; do
   out=$(./check "$pid" --tier quick 2>/tmp/seed_err.txt); rc=$?
-  echo "[$pid] rc=$rc $(echo "$out" | grep -E 'VIOLATION|KNOWN' | head -3)"
+  echo "[$pid] rc=$rc $(echo "$out" | grep -E 'VIOLATION' | head -2)"
   grep -E "^violation:|^tie broken:" /tmp/seed_err.txt | head -2
 done
 git -C /repo checkout -- .
